@@ -1,4 +1,5 @@
 pub mod bookdrive;
+pub mod envdrive;
 pub mod gen;
 pub mod obs;
 pub mod proto;
